@@ -42,36 +42,37 @@ def shapes(level):
     def add(kind, *lists):
         q.append({"h": None, "x": [[K[kind]]] + [list(l) for l in lists]})
     big = level == 'thorough'
-    add('SR', [0,1,2] + ([31] if big else []), [0,4] + ([8] if big else []))
-    add('RR', [0,1,2] + ([31] if big else []), [0,4] + ([8] if big else []))
-    add('SDES', [0,1,2], [0,1,2], [0,1,3,4] + ([255] if big else []))
-    if big: add('SDES', [31], [1], [1])
-    add('BYE', [0,1,2] + ([31] if big else []), [0,1,2,3,4] + ([255] if big else []))
-    add('APP', [0,1,2,3,4,5,8])
-    add('NACK', [1,2] + ([253] if big else []))
+    add('SR', rng(0,31) if big else [0,1,2,3], [0,4,8,12] if big else [0,4,8])
+    add('RR', rng(0,31) if big else [0,1,2,3], [0,4,8,12] if big else [0,4,8])
+    add('SDES', rng(0,4) if big else [0,1,2,3], rng(0,4) if big else [0,1,2,3], rng(0,9) + [255] if big else [0,1,2,3,4,5])
+    if big: add('SDES', [8,31], [1,2], [1,2])
+    add('BYE', rng(0,31) if big else [0,1,2,3], rng(0,12) + [255] if big else rng(0,8))
+    add('APP', rng(0,40) if big else rng(0,12))
+    add('NACK', rng(1,12) + [253] if big else [1,2,3,4])
     add('RRR'); add('PLI')
-    add('SLI', [0,1,2])
-    add('FIR', [1,2] + ([31] if big else []))
-    add('REMB', [0,1,2] + ([255] if big else []), [1,46,63] + ([2,17,62] if big else []), [17])
-    add('REMB', [1], [0], [0,1,9,17])
-    add('CCFB', [0,1,2], [0,1,2,3,4])
+    add('SLI', rng(0,8) if big else [0,1,2,3])
+    add('FIR', rng(1,8) + [31] if big else [1,2,3])
+    add('REMB', [0,1,2,3,4,255] if big else [0,1,2,3], rng(1,63) if big else [1,2,17,46,62,63], [17])
+    add('REMB', [1], [0], rng(0,17) if big else [0,1,9,17])
+    add('CCFB', rng(0,3) if big else [0,1,2], rng(0,10) if big else rng(0,6))
     add('TWCC', [0,1,2,3,4,5,6,7,8])
-    add('RAW', [4,8,12])
+    add('RAW', [4,8,12,16,20,40] if big else [4,8,12])
     for k in range(1, 10): add('XR', [k])
     q.append({'h': None, 'a': [[K['XR']]]})
+    for k1 in range(1, 10):
+        for k2 in range(1, 10): add('XR', [k1], [k2])
     if big:
-        for k1 in range(1, 10):
-            for k2 in range(1, 10): add('XR', [k1], [k2])
-    else:
-        add('XR', [1],[6]); add('XR', [8],[3]); add('XR', [7],[9]); add('XR',[5],[4]); add('XR',[2],[8])
+        for k1 in [1,3,5,6,8]:
+            for k2 in range(1, 10):
+                for k3 in [2,4,7,9,8]: add('XR', [k1], [k2], [k3])
     return q
 def codec(h, level):
     out = []
     for c in shapes(level):
         d = dict(c); d['h'] = h; out.append(d)
     return out
-CODEC_B = 'every packet type with all field values, texts and payload bytes symbolic, for the shapes: SR reports {0,1,2} x extension octets {0,4}; RR reports {0,1,2}; SDES chunks {0,1,2} x items {0,1,2} x text octets {0,1,3,4}; BYE sources {0,1,2} x reason octets {0..4}; APP data octets {0..5,8}; NACK pairs {1,2}; RRR; PLI; SLI entries {0,1,2}; FIR entries {1,2}; REMB SSRCs {0,1,2} x exponents {1,46,63} (normal mantissa, low bits symbolic) and exponent 0 with mantissa MSB at {0,1,9,17}; CCFB blocks {0,1,2} x metric blocks {0..4} with symbolic begin sequence; TWCC: 9 chunking skeletons (run-length, 1-bit and 2-bit vectors, exact fit, vector overshoot) with symbolic header fields and delta values; XR: every single block of the 7 RFC 3611 kinds and 2 unknown-block shapes, the empty report, and 5 two-block sequences; Raw {4,8,12} octets'
-CODEC_BT = 'every packet type with all field values, texts and payload bytes symbolic, for the shapes: SR reports {0,1,2} x extension octets {0,4}; RR reports {0,1,2}; SDES chunks {0,1,2} x items {0,1,2} x text octets {0,1,3,4}; BYE sources {0,1,2} x reason octets {0..4}; APP data octets {0..5,8}; NACK pairs {1,2}; RRR; PLI; SLI entries {0,1,2}; FIR entries {1,2}; REMB SSRCs {0,1,2} x exponents {1,46,63} (normal mantissa, low bits symbolic) and exponent 0 with mantissa MSB at {0,1,9,17}; CCFB blocks {0,1,2} x metric blocks {0..4} with symbolic begin sequence; TWCC: 9 chunking skeletons (run-length, 1-bit and 2-bit vectors, exact fit, vector overshoot) with symbolic header fields and delta values; XR: every single block of the 7 RFC 3611 kinds and 2 unknown-block shapes, the empty report, and 5 two-block sequences; Raw {4,8,12} octets; thorough adds 31 reports/chunks/sources, 255-octet texts, 253 NACK pairs, 255 REMB SSRCs, more REMB exponents and all 81 ordered pairs of XR block kinds'
+CODEC_B = 'every packet type with all field values, texts and payload bytes symbolic, for the shapes: SR and RR reports {0..3} x extension octets {0,4,8}; SDES chunks {0..3} x items per chunk {0..3} x text octets {0..5}; BYE sources {0..3} x reason octets {0..8}; APP data octets {0..12}; NACK pairs {1..4}; RRR; PLI; SLI entries {0..3}; FIR entries {1..3}; REMB SSRCs {0..3} x exponents {1,2,17,46,62,63} (normal mantissa, low bits symbolic) and exponent 0 with mantissa MSB at {0,1,9,17}; CCFB blocks {0,1,2} x metric blocks {0..6} with symbolic begin sequence; TWCC: 9 chunking skeletons (run-length, 1-bit and 2-bit vectors, exact fit, vector overshoot) with symbolic header fields and delta values; XR: the empty report, every single block of the 7 RFC 3611 kinds and 2 unknown-block shapes, and all 81 ordered two-block sequences; Raw {4,8,12} octets'
+CODEC_BT = 'every packet type with all field values, texts and payload bytes symbolic, for the shapes: SR and RR reports {0..31} x extension octets {0,4,8,12}; SDES chunks {0..4} x items {0..4} x text octets {0..9,255}, and {8,31} chunks x {1,2} items x {1,2} octets; BYE sources {0..31} x reason octets {0..12,255}; APP data octets {0..40}; NACK pairs {1..12,253}; RRR; PLI; SLI entries {0..8}; FIR entries {1..8,31}; REMB SSRCs {0..4,255} x every exponent 1..63 (normal mantissa) and exponent 0 with mantissa MSB at every position 0..17; CCFB blocks {0..3} x metric blocks {0..10}; TWCC: 9 chunking skeletons; XR: empty, 9 single blocks, all 81 ordered pairs and 225 three-block sequences; Raw {4,8,12,16,20,40} octets'
 def c05extra():
     # length-focused shapes: every residue mod 4 of the variable-length parts
     return [{"h":"VpC05","x":[[K['RR']],[0,1],rng(1,9)]},{"h":"VpC05","x":[[K['SR']],[0,1],rng(1,9)]},
